@@ -66,6 +66,25 @@ fn pick_class(rng: &mut Rng, w: &[(BidiClass, usize)]) -> BidiClass {
 pub fn gen_text(rng: &mut Rng, mode: &str) -> Vec<u32> {
     match mode {
         "empty" => vec![],
+        "anychar" => {
+            // scalar values from the WHOLE code space, not only the pools: the pipeline must treat a character by the
+            // class the lookup gives it and by nothing else (about 250 distinct scalars reach it otherwise)
+            let special: [u32; 34] = [0x1C, 0x1D, 0x1E, 0x1F, 0x85, 0xA0, 0xAD, 0x34F, 0x61C, 0x180E, 0x2000, 0x200B, 0x200C, 0x200D, 0x200E,
+                0x200F, 0x2028, 0x2029, 0x202F, 0x205F, 0x2060, 0x2061, 0x2064, 0x206A, 0x206F, 0x3000, 0xFEFF, 0xFFF9, 0xFFFB, 0xFFFC, 0xFFFD,
+                0xE0001, 0xE007F, 0xE01EF];
+            let n = rng.range(1, 14);
+            (0..n)
+                .map(|_| match rng.below(10) {
+                    0 | 1 | 2 => *rng.pick(&special),
+                    3 | 4 => { let c = *rng.pick(&[L, R, AL, EN, WS, ON]); pick_char(rng, c) }
+                    5 => *rng.pick(&[LRI_C, RLI_C, FSI_C, PDI_C, LRE_C, RLE_C, PDF_C, 0x28, 0x29]),
+                    6 => rng.below(0x3000) as u32,
+                    7 => 0x10000 + rng.below(0x20000) as u32,
+                    8 => 0xE0000 + rng.below(0x200) as u32,
+                    _ => { let c = rng.below(0x110000) as u32; if (0xD800..0xE000).contains(&c) { 0xFFFD } else { c } }
+                })
+                .collect()
+        }
         "edges" => {
             // a long run of ASCII with the only non-ASCII characters in the first or last few bytes (word-at-a-time
             // scans treat the unaligned head and tail of a buffer separately from its aligned middle)
@@ -287,7 +306,7 @@ pub fn gen_text(rng: &mut Rng, mode: &str) -> Vec<u32> {
             let kinds = rng.range(1, 4);
             // completed pairs BEFORE the pending openers (they must survive an overflow of the 63-entry stack),
             // sometimes more than 63 of them (completed pairs do not count against the limit)
-            let pre_pairs = match rng.below(6) { 0 => rng.range(1, 4), 1 => rng.range(60, 70), _ => 0 };
+            let pre_pairs = match rng.below(40) { 0..=5 => rng.range(1, 4), 6..=11 => rng.range(60, 70), 12 => rng.range(255, 262), _ => 0 };
             for _ in 0..pre_pairs {
                 let k = rng.below(kinds);
                 t.push(OPEN_BRACKETS[k]);
@@ -666,8 +685,8 @@ fn line_case(rng: &mut Rng, modes: &[(&'static str, usize)]) -> (String, Input) 
     (mode, inp)
 }
 
-const MODES_ALL: [(&str, usize); 16] =
-    [("edges", 2), ("manyparas", 1), ("removed", 1), ("short", 12), ("long", 4), ("iso", 6), ("deep", 2), ("brk", 4), ("sep", 4), ("words", 6), ("weak", 6), ("para", 4), ("max", 2), ("n0", 8), ("deepiso", 1), ("siblings", 1)];
+const MODES_ALL: [(&str, usize); 17] =
+    [("anychar", 4), ("edges", 2), ("manyparas", 1), ("removed", 1), ("short", 12), ("long", 4), ("iso", 6), ("deep", 2), ("brk", 4), ("sep", 4), ("words", 6), ("weak", 6), ("para", 4), ("max", 2), ("n0", 8), ("deepiso", 1), ("siblings", 1)];
 
 /// Exhaustive small scope (support for the thorough tier, never presented as proof): the `n`-th class
 /// sequence over `alphabet`, shortest first, crossed with the three base directions; representatives rotate.
@@ -793,8 +812,9 @@ pub fn gen_case(prop: &str, rng: &mut Rng, n: usize, thorough: bool) -> (String,
             if n == 1 {
                 return ("empty".into(), Input::Bidi { enc: Enc::U16, api: Api::B, dir: Dir::L1, text: vec![], ds: None });
             }
-            bidi_case(rng, &[("para", 10), ("iso", 8), ("short", 4), ("words", 2), ("sep", 2), ("deepiso", 1), ("deep", 1), ("manyparas", 1)], true)
+            bidi_case(rng, &[("para", 10), ("iso", 8), ("short", 4), ("words", 2), ("sep", 2), ("deepiso", 1), ("deep", 1), ("manyparas", 1), ("anychar", 3)], true)
         }
+        "C05" | "C06" if n == 3 => ("stress".into(), Input::Stress { n: 3_000 }),     // 6,000 runs in one line, LTR and forced RTL
         "C03" | "C05" | "C06" if n < 3 => {
             // a line longer than 65,535 code units (the whole of a one-paragraph text), against the same tail after `a SP`
             let tm = pick_mode(rng, &[("n0", 2), ("short", 2), ("words", 2)]);
@@ -1168,6 +1188,21 @@ pub fn gen_case(prop: &str, rng: &mut Rng, n: usize, thorough: bool) -> (String,
         },
         "C16" => {
             if rng.chance(1, 60) {
+                // several hundred paragraphs WITHOUT a strong character (empty, white space, numbers, neutrals, matched
+                // isolates around strong text), then one that has one: the full-text variant must find it
+                let n = *rng.pick(&[3usize, 40, 254, 255, 256, 257, 300]) + rng.below(3);
+                let mut t: Vec<u32> = vec![];
+                for _ in 0..n {
+                    for _ in 0..rng.range(0, 2) { let c = *rng.pick(&[WS, ON, EN, CS, ET]); t.push(pick_char(rng, c)); }
+                    if rng.chance(1, 10) { t.extend_from_slice(&[RLI_C, 0x5D0, PDI_C]); }
+                    t.push(*rng.pick(pool(B)));
+                }
+                t.push(*rng.pick(&[0x5D0u32, 0x61, 0x627]));
+                let enc = if rng.chance(1, 2) { Enc::U8 } else { Enc::U16 };
+                let text = if enc == Enc::U16 { to_units(rng, &t, false) } else { t };
+                return ("neutralparas".into(), Input::BaseDir { enc, text, ds: None });
+            }
+            if rng.chance(1, 60) {
                 // several hundred isolate initiators open at once, then as many PDIs (minus a few), then strong text:
                 // the depth counter must not wrap at 256
                 let n = rng.range(250, 300);
@@ -1180,7 +1215,7 @@ pub fn gen_case(prop: &str, rng: &mut Rng, n: usize, thorough: bool) -> (String,
                 let enc = if rng.chance(1, 2) { Enc::U8 } else { Enc::U16 };
                 return ("isocount".into(), Input::BaseDir { enc, text: t, ds: None });
             }
-            let mode = pick_mode(rng, &[("iso", 10), ("para", 10), ("short", 4), ("words", 2), ("empty", 2), ("deepiso", 1), ("siblings", 1)]);
+            let mode = pick_mode(rng, &[("iso", 10), ("para", 10), ("short", 4), ("words", 2), ("empty", 2), ("deepiso", 1), ("siblings", 1), ("manyparas", 1), ("anychar", 2)]);
             let enc = if rng.chance(1, 2) { Enc::U8 } else { Enc::U16 };
             if rng.chance(1, 6) {
                 let (spec, alpha) = gen_ds(rng);
